@@ -894,13 +894,13 @@ type c04RunObs struct {
 }
 
 type c04Wrote struct {
-	WalkSize int64 `json:"walk_size"`
-	Job    string `json:"job"`
-	Kind   string `json:"kind"` // Ff Fd Fl Tf Td Tl
-	Size   int64  `json:"size"`
-	Path   string `json:"path"`
-	Exists bool   `json:"exists"`
-	Intact bool   `json:"intact"`
+	WalkSize int64  `json:"walk_size"`
+	Job      string `json:"job"`
+	Kind     string `json:"kind"` // Ff Fd Fl Tf Td Tl
+	Size     int64  `json:"size"`
+	Path     string `json:"path"`
+	Exists   bool   `json:"exists"`
+	Intact   bool   `json:"intact"`
 }
 
 type c04Rep struct {
